@@ -214,6 +214,14 @@ fn produce_image_from_entry(entry: &Entry) -> Result<image::RgbaImage, String> {
         format!("cannot transcode from unknown color format {}", format)
     })?;
 
+    let expected_size = cformat.bytes_per_pixel() as usize * content_width as usize * content_height as usize;
+    if texture_data.data.len() != expected_size {
+        return Err(format!(
+            "image data has wrong size for a {}x{} image ({} bytes, expected {})",
+            content_width, content_height, texture_data.data.len(), expected_size,
+        ));
+    }
+
     let content_argb = cformat.transcode_to_argb_8888(&texture_data.data);
     let content = BgraImage::from_raw(content_width, content_height, &content_argb[..]).expect("size error?!");
 
